@@ -170,6 +170,14 @@ func Start(ds DataSource, queuedRequests chan func(), Npresamp int, Nsamples int
 // This will be a long-running goroutine, as long as a source is active.
 func CoreLoop(ds DataSource, queuedRequests chan func()) {
 	defer ds.RunDoneDeactivate()
+	defer func() {
+		// A source that ends on its own (error block, closed channel after a timeout) might never
+		// see a Stop() call, which is what normally stops the writing: do it here, before the
+		// source is declared inactive.
+		if ds.WritingIsActive() {
+			ds.WriteControl(&WriteControlConfig{Request: "STOP"})
+		}
+	}()
 	nextBlock := ds.getNextBlock()
 
 	for {
